@@ -342,17 +342,276 @@ LENBC = [
     ('len(Broadcast(a, (4,)))', {'a': 2}, '4'),
     ('floor(Broadcast(a, (2,))[0])', {'a': '-5/2'}, '-3'),
     ('IndexedBroadcast(a, (3,), 2) + len(v)', {'a': '1/2', 'v': [1, 2]}, '5/2'),
+    # round 4 (coverage audit): closed Broadcast / Len (decided at construction), array values substituted symbolically
+    ('Broadcast(2, (3,))*b', {'b': 3}, ['6', '6', '6']),
+    ('len(Broadcast(2, (3,))) + b', {'b': 3}, '6'),
+    ('Broadcast(2, (3,))[1] + b', {'b': '-5/2'}, '-1/2'),
+    ('a*b + c', {'a': [1, 2, 3], 'b': 2, 'c': 1}, ['3', '5', '7']),
+    ('a*b - c*a', {'a': [1, -2, 3], 'b': '1/2', 'c': 2}, ['-3/2', '3', '-9/2']),
+    ('a + b', {'a': [4, -1], 'b': [1, 1]}, ['5', '0']),
 ]
 
 
 def _lenbc_cases():
     out = []
     for text, sc, want in LENBC:
-        for p in ('in_scope', 'numeric', 'exact', 'serial', 'twice'):
+        for p in ('in_scope', 'numeric', 'exact', 'serial', 'twice', 'symarr'):
+            if p == 'symarr' and not any(isinstance(x, list) for x in sc.values()) or 'v' in sc and p == 'symarr':
+                continue
+            if p == 'exact' and isinstance(want, list) and 'Broadcast' not in text:
+                continue
             out.append({'kind': 'lenbc', 'text': text, 'scope': sc, 'want': want, 'path': p, 'family': 'det:lenbc'})
     return out
 
 
+# ---------------------------------------------------------------------------------------------------------------------
+# round 4, class (a): process-global state across DIFFERENT Expression objects.  One case = one session: several objects
+# and the calls made on them in one process, in order; the session starts with empty module-level memos.  The blind
+# class was "an equal-valued number of ANOTHER type went through evaluate_symbolic earlier (any object) or sits in the
+# same mapping": float 2.0 / numpy.float64(2) against numpy.int64(2) / TimeType(2) / Fraction(2) / int 2 compare equal
+# and hash alike.  Each session uses its own value, so that nothing but its own order decides.
+
+THIRD = b('div', v('b'), c(3))                                        # exactness: 2/3 is not 0.666...
+SQ1 = b('add', b('mul', v('b'), v('b')), c(1))                        # magnitude: (2**60)**2 + 1 is an integer
+# (the float lands where its digits beyond the 15th cannot matter: known finding float-15-digits is pinned elsewhere)
+MIXFL = b('add', b('mul', u('floor', b('min', v('a'), v('x'))), v('b')), b('mul', v('b'), c(F(1, 3), 'r')))
+HALFSUM = b('add', b('mul', v('b'), c(F(1, 2), 'r')), ['sum', 'k', c(0), c(2), b('mul', v('k'), v('b'))])
+WARM = b('min', v('a'), v('x'))
+XOBJ_VALUES = [2, 41, 2 ** 60, 5, 2 ** 53 + 2, 1, 0, -7]        # all of them doubles
+EXACT_TYS = ['npint', 'time', 'frac', 'int']
+FLOAT_TYS = ['float', 'npfloat']
+
+
+def _part(expr, subs, scope=None, path='exact', obj=None):
+    out = {'kind': 'partial', 'expr': expr, 'route': 'str', 'subs': {x: {'num': t} for x, t in subs.items()},
+           'scope': scope or {}, 'path': path}
+    if obj is not None:
+        out['obj'] = obj
+    return out
+
+
+def _ev(expr, calls, obj=None):
+    out = {'kind': 'eval', 'expr': expr, 'route': 'str', 'calls': [{'path': p, 'scope': sc} for p, sc in calls],
+           'history': True}
+    if obj is not None:
+        out['obj'] = obj
+    return out
+
+
+def _xobj_cases(tier):
+    out = []
+    n = 0
+    for val in (XOBJ_VALUES if tier != 'quick' else [2, 41, 2 ** 60, 2 ** 53 + 2, -7]):
+        for ety in EXACT_TYS:
+            for fty in FLOAT_TYS:
+                n += 1
+                if tier == 'quick' and fty == 'npfloat' and (n // 2) % 2:
+                    continue
+                fl, ex = tv(fty, val), tv(ety, val)
+                one = {'x': tv('int', -9)}
+                # (1) the float first, through ANOTHER object; then the exact number where exactness shows
+                steps = [_part(WARM, {'a': fl}, one, 'in_scope', 'warm'),
+                         _part(THIRD, {'b': ex}, {}, 'exact', 'third'),
+                         _part(SQ1, {'b': ex}, {}, 'in_scope', 'sq'),
+                         _part(HALFSUM, {'b': ex}, {}, 'exact', 'hs'),
+                         _ev(THIRD, [('exact', {'b': tv('time', val)}), ('symfull', {'b': ex})], 'third'),
+                         _part(WARM, {'a': fl}, one, 'in_scope', 'warm')]
+                out.append({'kind': 'session', 'subs': steps, 'precise': True,
+                            'family': 'det:xobj:float-first:%s:%s' % (ety, fty)})
+                # (2) the exact number first, then the float (and the exact one again)
+                steps = [_part(THIRD, {'b': ex}, {}, 'exact', 'third'),
+                         _part(WARM, {'a': fl}, one, 'in_scope', 'warm'),
+                         _part(b('div', v('a'), c(4)) if abs(val) < 2 ** 40 else WARM, {'a': fl},
+                               {} if abs(val) < 2 ** 40 else one, 'in_scope', 'quarter'),
+                         _part(SQ1, {'b': ex}, {}, 'in_scope', 'sq'),
+                         _part(THIRD, {'b': ex}, {}, 'exact', 'third2')]
+                out.append({'kind': 'session', 'subs': steps, 'precise': True,
+                            'family': 'det:xobj:exact-first:%s:%s' % (ety, fty)})
+                # (3) both in ONE mapping (either order of the keys), the float for a name the formula does not use
+                #     and for a name whose float-ness is absorbed by floor()
+                three = {'x': tv('int', 3)}
+                steps = [_part(THIRD, {'a': fl, 'b': ex}, {}, 'exact'),
+                         _part(b('div', v('a'), c(3)), {'a': ex, 'b': fl}, {}, 'exact'),
+                         _part(MIXFL, {'a': fl, 'b': ex}, three, 'exact'),
+                         _part(SQ1, {'a': fl, 'b': ex}, {}, 'in_scope')]
+                out.append({'kind': 'session', 'subs': steps, 'precise': True,
+                            'family': 'det:xobj:one-mapping:%s:%s' % (ety, fty)})
+    # (4) the float arrives through the OTHER access paths of another object (compiled lambdas, serialisation,
+    #     operators, comparison) before the exact number is substituted
+    for val in (6, 2 ** 55 + 8):
+        for ety in EXACT_TYS:
+            fl, ex = tv('float', val), tv(ety, val)
+            m9 = tv('int', -9)
+            steps = [_ev(WARM, [('in_scope', {'a': fl, 'x': m9}), ('numeric', {'a': fl, 'x': m9}),
+                                ('serial', {'a': fl, 'x': m9}), ('symfull', {'a': fl, 'x': m9})], 'warm'),
+                     {'kind': 'build', 'op': 'mul', 'a': v('x'), 'b': {'num': fl if val < 2 ** 40 else tv('float', 6)},
+                      'swap': False, 'scope': {'x': tv('int', 3)}, 'path': 'in_scope'},
+                     {'kind': 'cmp', 'op': 'le', 'a': c(val), 'b': c(val), 'rhs_num': False, 'samples': [{}],
+                      'num': dict(fl, side='b')},
+                     _part(THIRD, {'b': ex}, {}, 'exact', 'third'),
+                     _part(SQ1, {'b': ex}, {}, 'in_scope', 'sq'),
+                     {'kind': 'build', 'op': 'mul', 'a': v('x'), 'b': {'num': tv('int' if ety == 'npint' else ety, val)},
+                      'swap': True, 'scope': {'x': tv('int', 3)}, 'path': 'exact'}]
+            out.append({'kind': 'session', 'subs': steps, 'precise': True, 'family': 'det:xobj:other-paths:%s' % ety})
+    # (5) two objects with the SAME text, different histories; and one object substituted twice with equal-valued
+    #     numbers of different types
+    for val in (9, 2 ** 58):
+        for ety in EXACT_TYS:
+            fl, ex = tv('float', val), tv(ety, val)
+            steps = [_part(THIRD, {'b': fl}, {}, 'in_scope', 'o1'), _part(THIRD, {'b': ex}, {}, 'exact', 'o2'),
+                     _part(THIRD, {'b': ex}, {}, 'exact', 'o1'), _part(THIRD, {'b': fl}, {}, 'in_scope', 'o2'),
+                     _part(SQ1, {'b': fl}, {}, 'in_scope', 'o3'), _part(SQ1, {'b': ex}, {}, 'in_scope', 'o3')]
+            out.append({'kind': 'session', 'subs': steps, 'precise': True, 'family': 'det:xobj:same-text:%s' % ety})
+    return out
+
+
+# ---------------------------------------------------------------------------------------------------------------------
+# round 4, class (b): MAGNITUDES.  Values near and beyond 2**53 (integers that are no doubles) and 2**63 (no int64), and
+# tiny values, through floor / ceiling / // and their neighbours, as scalars on every access path and as numpy arrays
+# (the int64 cast of the array path), and big Python ints (arbitrary size: the exact value is required wherever the
+# typed model computes an int).  All cases are 'precise': tolerance only where an intermediate value is no double.
+
+P53, P62, P63, P64 = 2 ** 53, 2 ** 62, 2 ** 63, 2 ** 64
+MAGN_FLOATS = [F(P53), F(P53 + 2), F(P62), F(P63 - 1024), F(P63), F(P63 + 2048), F(P64), F(10 ** 19), -F(P63),
+               -F(P63 + 2048), F(2) ** 100, F(1, 2 ** 60), -F(1, 2 ** 60), F(3, 2), F(-5, 2), F(P53 - 1, 2)]
+MAGN_FORMS = [
+    ('floor-at', u('floor', b('mul', v('a'), v('t')))),
+    ('ceil-at', u('ceil', b('mul', v('a'), v('t')))),
+    ('floordiv-1', b('floordiv', b('mul', v('a'), v('t')), c(1))),
+    ('floor-quarter', u('floor', b('div', v('a'), c(4)))),
+    ('neg-floor-neg', u('neg', u('floor', u('neg', v('a'))))),
+    ('floor-minus-ceil', b('sub', u('floor', b('mul', v('a'), v('t'))), u('ceil', b('mul', v('a'), v('t'))))),
+    ('frac-part', b('sub', v('a'), u('floor', v('a')))),
+    ('max-floor', b('max', u('floor', v('a')), v('t'))),
+    ('floordiv-t', b('floordiv', v('a'), v('t'))),
+]
+MAGN_TS = [F(1, 2), F(1), F(2)]
+MAGN_ARRAYS = [
+    ('fits', [F(P53), F(P62), F(P63 - 1024), F(3, 2), F(-5, 2), -F(P63)]),              # all fit int64: int result
+    ('one-over', [F(3, 2), F(P63), F(1)]),                                                # one entry is 2**63
+    ('over', [F(P63), F(P64), F(10 ** 19), F(2) ** 100, -F(P63 + 2048)]),                 # none fits
+    ('edge', [F(P63 - 1024), F(P63), -F(P63), -F(P63 + 2048), F(0)]),                     # both edges of int64
+    ('tiny', [F(1, 2 ** 60), -F(1, 2 ** 60), F(0), F(P53 - 1, 2)]),
+]
+SAMPLE_TIMES = [F(0), F(1, 2), F(1), F(2), F(-4)]
+BIGINTS = [(P53 + 1, 3), (P63 + 1, -1), (P64 + 1, 3), (-P63 - 1, 2), (P62, 4), (10 ** 30, 7), (P63 - 1, 2), (-P63, -1)]
+BIGINT_FORMS = [
+    ('mul-add', b('add', b('mul', v('n'), v('m')), c(1))),
+    ('square', b('sub', u('pow:2', v('n')), v('m'))),
+    ('sum', ['sum', 'k', c(0), c(2), b('mul', v('n'), v('k'))]),
+    ('neg-sub', b('sub', u('neg', v('n')), v('m'))),
+    ('floor-id', b('add', u('floor', v('n')), u('ceil', v('m')))),
+    ('third', b('add', b('mul', v('n'), c(F(1, 3), 'r')), v('m'))),
+    # the classes of the known findings (kept: their predicate must keep recognising them, nothing else)
+    ('floordiv', b('floordiv', v('n'), v('m'))),
+    ('floor-div', u('floor', b('div', v('n'), v('m')))),
+    ('abs-mul', b('mul', u('abs', v('n')), v('m'))),
+    ('max', b('max', v('n'), v('m'))),
+    ('max-mul', b('mul', b('max', v('n'), v('m')), c(4))),
+]
+
+
+def _magn_cases(tier):
+    out = []
+    for name, e in MAGN_FORMS:
+        uses_t = 't' in _names(e)
+        # scalars: every access path of one object, float and numpy.float64
+        for ty in ('float', 'npfloat'):
+            calls = []
+            for q in MAGN_FLOATS:
+                for t in ((MAGN_TS if tier != 'quick' else MAGN_TS[:2]) if uses_t else [None]):
+                    sc = {'a': tv(ty, q)}
+                    if uses_t:
+                        sc['t'] = tv('float' if t.denominator != 1 else 'int', t)
+                    for p in ('in_scope', 'numeric', 'exact', 'symfull', 'serial'):
+                        if tier == 'quick' and ty == 'npfloat' and p not in ('in_scope', 'exact'):
+                            continue
+                        calls.append({'path': p, 'scope': sc})
+            out.append({'kind': 'eval', 'expr': e, 'route': 'str', 'calls': calls, 'history': True, 'precise': True,
+                        'family': 'det:magn:scalar:%s:%s' % (name, ty)})
+        # arrays: the parameter is an array / the sample times are an array and the parameter is big
+        calls = []
+        for an, arr in MAGN_ARRAYS:
+            for t in (MAGN_TS if uses_t else [None]):
+                sc = {'a': {'ty': 'arrf', 'v': [str(q) for q in arr]}}
+                if uses_t:
+                    sc['t'] = tv('float', t)
+                calls.append({'path': 'array', 'scope': sc})
+        if uses_t:
+            for q in MAGN_FLOATS:
+                calls.append({'path': 'array', 'scope': {'a': tv('float', q),
+                                                         't': {'ty': 'arrf', 'v': [str(x) for x in SAMPLE_TIMES
+                                                                                   if x != 0 or 'floordiv-t' != name]}}})
+        # scalar calls in between and after: the same object
+        calls.insert(len(calls) // 2, {'path': 'in_scope', 'scope': dict({'a': tv('float', F(P63))},
+                                                                          **({'t': tv('float', F(1, 2))} if uses_t else {}))})
+        calls.append(dict(calls[0]))
+        out.append({'kind': 'eval', 'expr': e, 'route': 'str', 'calls': calls, 'history': True, 'precise': True,
+                    'family': 'det:magn:array:%s' % name})
+    # big Python ints (and the same values as numpy.int64 where they fit)
+    for name, e in BIGINT_FORMS:
+        calls = []
+        for n, m in BIGINTS:
+            sc = {'n': tv('int', n), 'm': tv('int', m)}
+            for p in ('in_scope', 'numeric', 'exact', 'symfull', 'serial'):
+                calls.append({'path': p, 'scope': sc})
+        out.append({'kind': 'eval', 'expr': e, 'route': 'str', 'calls': calls, 'history': True, 'precise': True,
+                    'family': 'det:magn:bigint:%s' % name})
+        # partially substituted: one of the two first
+        for n, m in BIGINTS[:6]:
+            for first in ('n', 'm'):
+                rest = 'm' if first == 'n' else 'n'
+                vals = {'n': n, 'm': m}
+                if rest not in _names(e):
+                    continue
+                for ty in ('int', 'npint') if abs(vals[first]) < P63 else ('int',):
+                    out.append({'kind': 'partial', 'expr': e, 'route': 'str',
+                                'subs': {first: {'num': tv(ty, vals[first])}},
+                                'scope': {rest: tv('int', vals[rest])}, 'path': 'in_scope' if ty == 'int' else 'exact',
+                                'precise': True, 'family': 'det:magn:bigint-partial:%s' % name})
+    # floats with more than 15 significant decimal digits inside a formula (known finding float-15-digits)
+    for q in (F(0.1) + F(0.2), F(P53 + 2), F(P63), F(1, 3 * 2 ** 50) * (2 ** 52 + 1)):
+        q = F(float(q))
+        for e in (b('mul', v('a'), v('x')), b('add', v('a'), v('x')), b('div', v('x'), b('mul', v('a'), c(2)))):
+            out.append({'kind': 'partial', 'expr': e, 'route': 'str', 'subs': {'a': {'num': tv('float', q)}},
+                        'scope': {'x': tv('int', 1)}, 'path': 'in_scope', 'precise': True,
+                        'family': 'det:magn:float-digits'})
+            out.append({'kind': 'eval', 'expr': e, 'route': 'str', 'precise': True, 'family': 'det:magn:float-digits',
+                        'calls': [{'path': p, 'scope': {'a': tv('float', q), 'x': tv('float', 1)}}
+                                  for p in ('in_scope', 'symfull', 'serial')]})
+    return out
+
+
+# round 4 (coverage audit): the access paths the generators never took -- pickle / repr / copy constructor /
+# Expression.make with a dict and an Expression / the expression as a sympy object inside another one / sympy numbers
+# as argument values; the same for ExpressionVector (pickle, repr with == and hash, sympy numbers -> object arrays)
+API_PATHS = ['pickle', 'repr', 'copy', 'make', 'symscope', 'nested']
+
+
+def _api_cases(usable):
+    out = []
+    scopes = [HIST_SCOPES['int'], HIST_SCOPES['float'], HIST_SCOPES['float2'], HIST_SCOPES['int2']]
+    forms = HIST_FORMS + [c(F(5, 2), 'f'), c(7), c(F(2, 3), 'r'), b('mul', v('a'), c(F(1, 3), 'r')),
+                          ['ite', b('lt', v('a'), c(0)), ['nan'], v('b')]]
+    for e in forms:
+        calls = []
+        for sc in scopes:
+            sc = dict(sc, n=tv('int', 2), v={'ty': 'arri', 'v': ['4', '-1', '3']})
+            sc = {x: t for x, t in sc.items() if x in _names(e)}
+            for p in API_PATHS:
+                if usable(e, sc, 'in_scope'):
+                    calls.append({'path': p, 'scope': sc})
+        out.append({'kind': 'eval', 'expr': e, 'route': 'str', 'calls': calls, 'history': True, 'family': 'det:api'})
+    es = [b('mul', v('a'), v('b')), u('floor', v('a')), b('div', v('a'), c(2)), b('sub', v('b'), v('a'))]
+    for n in (1, 2, 4):
+        for sc in (HIST_SCOPES['int'], HIST_SCOPES['float']):
+            for p in ('pickle', 'repr', 'symscope'):
+                out.append({'kind': 'vec', 'exprs': es[:n], 'scope': sc, 'path': p, 'family': 'det:api:vector'})
+        out.append({'kind': 'vec', 'exprs': es[:n], 'shape': [1, n], 'scope': HIST_SCOPES['int'], 'path': 'pickle',
+                    'family': 'det:api:vector'})
+    return out
+
+
 def det_cases(tier, usable):
-    return _floor_cases() + _cmp_cases() + _hist_cases(usable) + _name_cases(tier) + _reserved_cases() + \
-        _shape_cases() + _lenbc_cases()
+    return _magn_cases(tier) + _api_cases(usable) + _floor_cases() + _cmp_cases() + _hist_cases(usable) + _name_cases(tier) + _reserved_cases() + \
+        _shape_cases() + _lenbc_cases() + _xobj_cases(tier)
